@@ -11,7 +11,7 @@
    resolution; a repeated draw is byte-identical to the first. *)
 From Coq Require Import List NArith Bool.
 From SNT Require Export Base.Report Base.Outcome Image.KDTree Image.Octree Image.Quantize Image.Sixel
-     Image.SixelDraw Image.SixelCache Gen.TabSixel.
+     Image.SixelDraw Image.SixelCache Image.SrgbSpec Gen.TabSixel.
 Import ListNotations.
 Local Open Scope N_scope.
 
@@ -115,15 +115,28 @@ Fixpoint run_draws (imgs : list (list (list spx) * N)) (st : hstate)
       (a && a', h && h')
   end.
 
+(* the compositing oracle values (rasterize blend_over, supplied by the harness) are bounded
+   against the exact linear-light mix of Image/SrgbSpec.v *)
+Definition px_blend_ok (bg : N * N * N * N) (p : spx) : bool :=
+  match p with
+  | Opaque _ => true
+  | Transp c a bl => blend_ok bg c a bl
+  end.
+
+Definition parents_blend_ok (bg : N * N * N * N) (parents : list (list (list spx))) : bool :=
+  forallb (forallb (forallb (px_blend_ok bg))) parents.
+
 Inductive c12_case :=
-  SIX (parents : list (list (list spx)))
+  SIX (bg : N * N * N * N)            (* the handler's background (black, opaque when not configured) *)
+      (parents : list (list (list spx)))
       (imgs : list (nat * option (nat * nat * nat * nat) * N))  (* parent number, crop, observed content hash *)
       (draws : list (nat * list N)).
 
 Definition c12_check (c : c12_case) : bool * bool :=
   match c with
-  | SIX parents imgs draws =>
-      run_draws (map (fun i => (view_rows (nth (fst (fst i)) parents []) (snd (fst i)), snd i)) imgs) ([], 0) [] draws
+  | SIX bg parents imgs draws =>
+      let '(a, h) := run_draws (map (fun i => (view_rows (nth (fst (fst i)) parents []) (snd (fst i)), snd i)) imgs) ([], 0) [] draws in
+      (a, h && parents_blend_ok bg parents)
   end.
 
 Definition c12_report := report c12_check.
